@@ -115,6 +115,83 @@ func runStrBirth(p *core.Prog) *core.Result {
 	}
 	res.Count("asciiString_births", nA)
 	res.Count("unicodeString_births", nU)
+	// nil-able producers: a module function with result type unicodeString that returns an unchecked
+	// unistring Scan/AsUtf16 result yields nil for ASCII content. Where its result is used as a string
+	// value (converted to an interface, or returned), the call needs wide-unit evidence or a nil test.
+	{
+		var producers []*ssa.Function
+		for _, f := range p.Funcs {
+			if !p.InModule(f) || f.Blocks == nil || f.Signature.Results().Len() != 1 || !core.IsGojaNamed(f.Signature.Results().At(0).Type(), "unicodeString") {
+				continue
+			}
+			nilable := false
+			core.AllInstrs(f, func(in ssa.Instruction) {
+				r, ok := in.(*ssa.Return)
+				if !ok || len(r.Results) != 1 {
+					return
+				}
+				o := core.Origin(r.Results[0])
+				if c, ok := o.(*ssa.Call); ok {
+					if sc := c.Call.StaticCallee(); sc != nil {
+						switch core.FuncName(sc) {
+						case "unistring.Scan", "(unistring.String).AsUtf16":
+							guarded := false
+							for _, cp := range core.ControllingConds(r.Block()) {
+								if x, nonNil, ok := core.IsNilCompare(cp.Cond); ok && cp.Pol == nonNil && core.Origin(x) == o {
+									guarded = true
+								}
+							}
+							if !guarded {
+								nilable = true
+							}
+						}
+					}
+				}
+			})
+			if nilable {
+				producers = append(producers, f)
+			}
+		}
+		for _, prod := range producers {
+			for _, f := range p.Funcs {
+				if !p.InModule(f) {
+					continue
+				}
+				for k, c := range core.CallsIn(f, prod) {
+					call, ok := c.(*ssa.Call)
+					if !ok {
+						continue
+					}
+					key := fmt.Sprintf("%s:%s result used as a string#%d", core.FuncName(f), prod.Name(), k+1)
+					used := false
+					for _, r := range core.Referrers(call) {
+						switch r.(type) {
+						case *ssa.MakeInterface, *ssa.Return, *ssa.ChangeInterface:
+							used = true
+						}
+					}
+					if !used {
+						continue
+					}
+					okEv := ""
+					for _, cp := range core.ControllingConds(call.Block()) {
+						if impliesWide(cp, f, 0) {
+							okEv = "call is control-dependent on unit->=0x80 evidence"
+						}
+					}
+					if why, ok := strBirthExceptions[core.FuncName(f)+":"+prod.Name()]; ok {
+						okEv = "table exception: " + why
+					}
+					if okEv != "" {
+						res.OK(key, p.Pos(call.Pos()), okEv)
+					} else {
+						res.Bad(key, p.Pos(call.Pos()), prod.Name()+"() returns nil when its input is pure ASCII (it hands on an unchecked Scan/AsUtf16 result); here the result becomes a string value without evidence that a unit >= 0x80 is present: an all-ASCII result (toLowerCase of U+212A KELVIN SIGN is 'k') is a nil unicodeString - length -1, not === to the equal literal, charCodeAt panics")
+					}
+				}
+			}
+		}
+		res.Count("nilable_unicode_producers", len(producers))
+	}
 	return res
 }
 
